@@ -81,6 +81,9 @@ def check_one(rec, seed, opts):
             ('null', 'GET', False, (1, 2)), ('main', 'POST', False, None)]
     b.app.error_handler.reraise_uncaught = True
     via = [False] * len(scen)
+    if rec['url']:
+        scen = scen + [('main', 'GET', False, (1, 2, 3))]      # the same request with every slash in front of a binding doubled
+        via = via + ['slashes']
     if not isinstance(getattr(b, 'elsewhere', None), (str, type(None))):
         # the same request through the unrelated parent the application was ALSO mounted into (the parent defines no
         # resources of its own: what the functions receive must still be the embedded application's)
@@ -92,8 +95,8 @@ def check_one(rec, seed, opts):
         if phases is None:
             phases = (1, 2)
         status, err, obs, dup, body = injectlib.run_request(b, which, method=method, ep_returns_response=epresp,
-                                                            via_parent=via_parent)
-        d2 = dict(detail, scenario=[which, method, epresp] + (['via-parent'] if via_parent else []), status=status, error=repr(err),
+                                                            via_parent=(via_parent is True), slashes=(via_parent == 'slashes'))
+        d2 = dict(detail, scenario=[which, method, epresp] + (['via-parent'] if via_parent is True else (['doubled-slashes'] if via_parent else [])), status=status, error=repr(err),
                   observed=dict(('%d:%d' % k, v) for k, v in obs.items()))
         if err is not None:
             msg = str(err)
